@@ -51,6 +51,14 @@ RenderedOK(outs) ==
   /\ {outs[i].fmt : i \in 1..Len(outs)} = Formats
   /\ \A i \in 1..Len(outs) : outs[i].ok /\ outs[i].wf
 
+\* one run of the pint binary (`pint lint` with a subset of --teamcity --require-owner --checkstyle F --json F):
+\* it ends by itself with exit status 0 or 1, never by a Go panic / fatal error, and every output it wrote is well-formed
+BinOK(r) ==
+  /\ r.exit \in {0, 1} /\ ~r.panic /\ ~r.timeout
+  /\ (r.json.written => r.json.wf)
+  /\ (r.checkstyle.written => r.checkstyle.wf)
+  /\ (r.teamcity.used => r.teamcity.wf)
+
 -----------------------------------------------------------------------------
 VARIABLES pc, n, entries, jobs, reports, outs
 vars == <<pc, n, entries, jobs, reports, outs>>
